@@ -11,6 +11,7 @@ import PercevalModel.Lemmas.C03More
 import PercevalModel.Lemmas.C03Dm
 import PercevalModel.Lemmas.C03Prec
 import PercevalModel.Lemmas.C03Evolve
+import PercevalModel.Lemmas.C03Mixed
 import PercevalModel.Props.C02
 import Mathlib.LinearAlgebra.Matrix.ConjTranspose
 
@@ -1671,6 +1672,147 @@ example {m : ℕ} (U : Matrix (Fin m) (Fin m) GQ) (terms : List Term) :
   refine ⟨by simp, ?_⟩
   intro x hx; cases hx
 
+/-! ## 12. states mixing annotated and un-annotated photons -/
+
+/-- the rule changes nothing for the states covered so far: all photons annotated, or none -/
+theorem native_uniform (st : AState) (h : Uniform st) : native st = st := by
+  unfold native
+  rcases h with h | h
+  · have : nzTags st = [] := by
+      rw [nzTags, List.filter_eq_nil_iff]
+      intro t ht
+      simp [h t ((mem_tagsOf st t).mp ht)]
+    simp [this]
+  · split
+    · rfl
+    · rename_i f hf
+      have hall : ∀ t ∈ st.flatten, t = f := by
+        intro t ht
+        have : t ∈ nzTags st := (mem_nzTags st t).mpr ⟨ht, h t ht⟩
+        rw [hf] at this
+        simpa using this
+      unfold allTo
+      conv_rhs => rw [← List.map_id st]
+      apply List.map_congr_left
+      intro mode hm
+      conv_rhs => rw [id, ← List.map_id mode]
+      apply List.map_congr_left
+      intro t ht
+      have htf := mem_flatten_of_mem hm ht
+      have hne : st.flatten ≠ [] := List.ne_nil_of_mem htf
+      have hhd : st.flatten.headD 0 ∈ st.flatten := by
+        cases hfl : st.flatten with
+        | nil => exact absurd hfl hne
+        | cons a r => simp
+      rw [hall _ hhd, hall t htf, id]
+    · rename_i f g r hf
+      unfold relabel
+      conv_rhs => rw [← List.map_id st]
+      apply List.map_congr_left
+      intro mode hm
+      conv_rhs => rw [id, ← List.map_id mode]
+      apply List.map_congr_left
+      intro t ht
+      simp [h t (mem_flatten_of_mem hm ht)]
+
+/-- no photon is lost, created or moved by the rule -/
+theorem occ_native (st : AState) : occ (native st) = occ st := by
+  unfold native
+  split
+  · rfl
+  · exact occ_allTo _ _
+  · exact occ_relabel _ _
+
+/-- **every photon of a mixed state lies in exactly one group**: mode by mode the groups' occupations add up to the
+state's -/
+theorem separate_native_partition (st : AState) (i : ℕ) :
+    ((separate (native st)).map fun g => g.getD i 0).sum = (occ st).getD i 0 := by
+  rw [separate_partition, occ_native]
+
+/-- **the native rule, written out**: the groups of a state mixing annotated and un-annotated photons are (up to
+their order) the photons of the first annotation TOGETHER WITH ALL UN-ANNOTATED PHOTONS, then the photons of every
+other annotation; without annotations, the whole state -/
+theorem separate_native_groups (st : AState) : (separate (native st)).Perm (mixedGroups st) := by
+  unfold native mixedGroups
+  split
+  · rename_i h0
+    have hall : ∀ t ∈ st.flatten, t = 0 := by
+      intro t ht
+      by_contra hne
+      have : t ∈ nzTags st := (mem_nzTags st t).mpr ⟨ht, hne⟩
+      rw [h0] at this
+      cases this
+    rw [separate_of_const st 0 hall]
+    simp only [h0]; exact List.Perm.refl _
+  · rename_i f hf
+    have hfm : f ∈ nzTags st := by rw [hf]; simp
+    have hf0 := ((mem_nzTags st f).mp hfm).2
+    have hall : ∀ t ∈ st.flatten, t = 0 ∨ t = f := by
+      intro t ht
+      by_cases h0 : t = 0
+      · exact Or.inl h0
+      · have : t ∈ nzTags st := (mem_nzTags st t).mpr ⟨ht, h0⟩
+        rw [hf] at this
+        exact Or.inr (by simpa using this)
+    rw [separate_of_const (allTo (st.flatten.headD 0) st) (st.flatten.headD 0)
+      (by rw [flatten_allTo]; intro t ht; obtain ⟨_, _, rfl⟩ := List.mem_map.mp ht; rfl), occ_allTo,
+      occ_eq_two f hf0 st hall]
+    simp only [hf, List.map_nil]; exact List.Perm.refl _
+  · rename_i f g r hf
+    have hfm : f ∈ nzTags st := by rw [hf]; simp
+    have hf0 := ((mem_nzTags st f).mp hfm).2
+    have hp := tagsOf_relabel_perm f st hfm
+    have hne : tagsOf (relabel f st) ≠ [] := by
+      intro e; rw [e, hf] at hp; exact absurd hp.length_eq (by simp)
+    unfold separate
+    simp only [hne, ↓reduceIte, hf]
+    refine (hp.map _).trans ?_
+    rw [hf]
+    simp only [List.map_cons, groupOf_relabel_first f hf0 st]
+    have hnd := nzTags_nodup st
+    rw [hf] at hnd
+    have hx : ∀ x ∈ g :: r, groupOf x (relabel f st) = groupOf x st := by
+      intro x hx
+      have hxm : x ∈ nzTags st := by rw [hf]; exact List.mem_cons_of_mem _ hx
+      apply groupOf_relabel_other f x ((mem_nzTags st x).mp hxm).2
+      rintro rfl
+      exact (List.nodup_cons.mp hnd).1 hx
+    have := List.map_congr_left hx
+    simp only [List.map_cons] at this
+    rw [this]
+
+/-- **distinguishable groups of a mixed state evolve independently**: `Simulator.probs(BasicState)` of a state
+mixing annotated and un-annotated photons gives every outcome the probability of the convolution of the
+distributions of: the photons of the first annotation together with all un-annotated photons, and the photons of each
+further annotation — for every circuit matrix and every assignment -/
+theorem probs_mixed_eq_conv {m : ℕ} (U : Matrix (Fin m) (Fin m) GQ) (st : AState) (t : Fock) :
+    get (probsBS U (native st)) t = get (normalize (probsTagged U (mixedGroups st))) t := by
+  rw [probsBS_eq_conv]
+  exact normalize_congr (fun t => probs_tagged_merge_order U _ _ (separate_native_groups st) t) t
+
+/-- … with total probability 1, the final normalisation changing nothing, behind a unitary circuit -/
+theorem probs_mixed_unitary {m : ℕ} (U : Matrix (Fin m) (Fin m) GQ) (hU : IsUnitary U) (st : AState)
+    (hm : st.length = m) (t : Fock) :
+    get (probsBS U (native st)) t = get (probsTagged U (mixedGroups st)) t := by
+  have hm' : (native st).length = m := by
+    have := congrArg List.length (occ_native st)
+    simpa [occ, hm] using this
+  rw [(probsBS_unitary U hU (native st) hm').1]
+  exact probs_tagged_merge_order U _ _ (separate_native_groups st) t
+
+example : native [[1, 0], [0], [2]] = [[1, 1], [1], [2]] ∧ native [[0], [1]] = [[0], [0]] ∧
+    native [[1, 0], []] = [[1, 1], []] ∧ native [[0, 0], [0]] = [[0, 0], [0]] ∧
+    mixedGroups [[1, 0], [0], [2]] = [[2, 1, 0], [0, 0, 1]] ∧ ¬ Uniform [[1, 0], [0], [2]] := by
+  refine ⟨by decide, by decide, by decide, by decide, by decide, ?_⟩
+  rintro (h | h)
+  · exact absurd (h 1 (by decide)) (by decide)
+  · exact absurd (h 0 (by decide)) (by decide)
+
+example : Uniform [[1, 2], [2]] ∧ Uniform [[0], [0, 0]] := by
+  constructor
+  · right; decide
+  · left; decide
+
 /-!
 Not proved here (validated by the correspondence on every run):
 * that the IMPLEMENTATION leaves out at a non-zero precision exactly what the model leaves out: sections 10 bounds
@@ -1683,7 +1825,10 @@ Not proved here (validated by the correspondence on every run):
   evaluated numerically by the harness (`loss_profile`), not proved; which components the native container discards
   is not modelled;
 * the identity of two multi-component state vectors as dict keys (native float comparison): not modelled
-  (distinct keys in `sameKey`); states mixing tagged and un-tagged photons (native `separate_state` rule).
+  (distinct keys in `sameKey`);
+* states mixing annotated and un-annotated photons: `native` (Model/C03Mixed.lean) describes what the native
+  `separate_state` / `get_photon_annotation(0)` were observed to do; that they do it is the correspondence (every
+  request is read through `native`; groups and annotation map compared with the real objects), not a theorem.
 -/
 
 end PM.C03
